@@ -296,3 +296,42 @@ func init() {
 		return Tuple{mkStr("/wd"), Iface{}}
 	})
 }
+
+// passThrough is returned by an intrinsic that only inspects the arguments and
+// lets the executor interpret the function body.
+type passThroughT struct{}
+
+var passThrough = &passThroughT{}
+
+func hasSymbolic(v Value) bool {
+	switch x := v.(type) {
+	case *Term:
+		return !x.isConst()
+	case Struct:
+		for _, f := range x {
+			if hasSymbolic(f) {
+				return true
+			}
+		}
+	case Str:
+		_, ok := x.concrete()
+		return !ok
+	}
+	return false
+}
+
+func init() {
+	// calendar arithmetic and formatting of a *symbolic* instant is not
+	// modelled (64-bit divisions by large constants stall every solver): the
+	// path is given up as unsupported, which hands its inputs to the native
+	// fallback; concrete instants are interpreted from the time package's SSA
+	guardTime := func(ex *Exec, fr *frame, fn *ssa.Function, args []Value) Value {
+		if hasSymbolic(args[0]) {
+			ex.unsupported("%s on a symbolic instant", fn.Name())
+		}
+		return passThrough
+	}
+	for _, m := range []string{"Format", "AppendFormat", "String", "Date", "Clock", "Year", "Month", "Day", "Weekday", "YearDay", "MarshalJSON", "MarshalText"} {
+		reg("(time.Time)."+m, guardTime)
+	}
+}
